@@ -210,7 +210,7 @@ class NodeSliver(BaseSliver):
             comp_removed = set(self.attached_components_info.devices.values())
 
         if self.network_service_info and other_sliver.network_service_info:
-            diff_ns = self._dict_diff(other_sliver.network_service_info.network_services,
+            diff_ns = self._dict_diff(self.network_service_info.network_services,
                                       other_sliver.network_service_info.network_services)
             ns_added = set(diff_ns['added'].values())
             ns_removed = set(diff_ns['removed'].values())
